@@ -147,8 +147,19 @@ end M
 
 namespace M
 
-theorem stepNG_fault (s : Shared) (b : Bool) (ng : NG) : (stepNG s b ng).1.fault = s.fault := by
-  cases ng <;> simp only [stepNG] <;> (repeat' split) <;> simp [Shared.setNode]
+/-- `Node::get` raises no fault — except the assertion at the end of `check_cooldown`, when the
+    node it held for the check is not in the checking state any more (never, in a reachable state:
+    `CheckInv`) -/
+theorem stepNG_fault (s : Shared) (b : Bool) (ng : NG) :
+    (stepNG s b ng).1.fault = s.fault ∨
+      ((stepNG s b ng).1.fault = (s.setFault chkAssert).fault ∧
+        ∃ n idle, ng = .cc2 n idle ∧ (s.nodes n).inUse ≠ Consts.nodeChecking) := by
+  cases ng with
+  | cc2 n idle =>
+    simp only [stepNG]; split
+    · left; simp [Shared.setNode]
+    · rename_i h; right; exact ⟨rfl, n, idle, rfl, h⟩
+  | _ => left; simp only [stepNG] <;> (repeat' split) <;> simp [Shared.setNode]
 
 theorem stepCD_fault (s : Shared) (cd : CD) (hf : s.fault = none) :
     (stepCD s cd).1.fault = none ∨
